@@ -220,3 +220,62 @@ def run(prog, chk):
         chk.ok("C18.d", f, "input length must be a multiple of four", "%s:%s" % (f.file, f.line), "early return", nontrivial=False)
     else:
         chk.bad("C18.d", f, "base64-length-check", "%s:%s" % (f.file, f.line), "fromBase64 must reject inputs whose length is not a multiple of 4")
+    conversion_ranges(prog, chk, "C18.e")
+
+
+INT_T = {"int": (True, 32), "unsigned int": (False, 32), "long": (True, 64), "unsigned long": (False, 64),
+         "long long": (True, 64), "unsigned long long": (False, 64), "short": (True, 16), "unsigned short": (False, 16),
+         "char": (True, 8), "signed char": (True, 8), "unsigned char": (False, 8)}
+
+
+def covers(L, R):
+    """does integer type L represent every value of integer type R?"""
+    (ls, lb), (rs, rb) = L, R
+    if rs:
+        return ls and lb >= rb
+    return (not ls and lb >= rb) or (ls and lb > rb)
+
+
+def conversion_ranges(prog, chk, rid):
+    """TYPE/SIB: String::to{Int,UInt,Int64,UInt64} hand their text to a C library parser whose result type represents every
+    value of the declared return type (no narrower or differently signed intermediate), and the member and static overloads
+    of one conversion use the same parser"""
+    chk.rule(rid, "TYPE/SIB: each String::to<Integer> returns the result of a C library parser whose result type covers the whole range of the "
+                  "return type, and member/static overloads agree on the parser", floor=8)
+    by_name = {}
+    for f in prog.functions.values():
+        if f.file.endswith("String.cpp") and re.match(r"^String::to(U?Int(64)?)$", f.name):
+            by_name.setdefault(f.name, []).append(f)
+    if len(by_name) < 4:
+        raise AnalysisBroken("String::toInt/toUInt/toInt64/toUInt64 not all found: %s" % sorted(by_name))
+    for name, fs in sorted(by_name.items()):
+        parsers = set()
+        for f in fs:
+            R = INT_T.get(f.d["ret"]) or INT_T.get(f.d.get("ret_canon", ""))
+            where = "%s:%s" % (f.file, f.line)
+            if R is None:
+                chk.bad(rid, f, "return-type-unknown", where, "return type `%s` is not an integer type known to the rule" % f.d["ret"])
+                continue
+            rets = [i for i, n in enumerate(f.nodes) if n["k"] == "ReturnStmt" and n["c"]]
+            for r in rets:
+                # every call on the value path of the returned expression
+                x = f.strip(f.nodes[r]["c"][0])
+                while f.nodes[x]["k"] in ("CStyleCastExpr", "CXXStaticCastExpr", "CXXFunctionalCastExpr", "ParenExpr", "ImplicitCastExpr") and f.nodes[x]["c"]:
+                    x = f.strip(f.nodes[x]["c"][0])
+                n = f.nodes[x]
+                if n["k"] != "CallExpr" or not n.get("callee"):
+                    chk.bad(rid, f, "conversion-not-a-parser-call", f.where(r), "`%s` is not the plain result of a C library parser" % f.r(r)[:60])
+                    continue
+                L = INT_T.get(n.get("t", ""))
+                parsers.add(n["callee"])
+                if L is None:
+                    chk.bad(rid, f, "parser-type-unknown", f.where(r), "result type `%s` of %s is not an integer type" % (n.get("t"), n["callee"]))
+                elif covers(L, R):
+                    chk.ok(rid, f, "%s (%s) covers %s" % (n["callee"], n.get("t"), f.d["ret"]), f.where(r), "integer range inclusion", evals=2)
+                else:
+                    chk.bad(rid, f, "parser-range-narrower-than-result", f.where(r),
+                            "%s returns `%s`, which cannot represent every `%s`: texts outside its range are clamped or wrapped before the cast "
+                            "(e.g. decimal 2^63..2^64-1 through a signed 64-bit parser become 9223372036854775807)" % (n["callee"], n.get("t"), f.d["ret"]), evals=2)
+        if len(parsers) > 1:
+            chk.bad(rid, fs[0], "overloads-use-different-parsers", "%s:%s" % (fs[0].file, fs[0].line),
+                    "%s: member and static overloads convert with different parsers %s" % (name, sorted(parsers)))
